@@ -958,6 +958,40 @@ func c18GenBinding(r *Rng) c18Scn {
 			s.Bindings = append(s.Bindings, b)
 		}
 	}
+	// desired state x owned Deployment present / absent x a pre-existing binding of the derived name
+	// controlled by a foreign UID / nobody / the revision: an INACTIVE revision without a Deployment
+	// of its own is the state in which a reconciler is tempted to clean the binding up by its derived
+	// name, without reading it (and its controller) first
+	s.PRs[0].Inactive, s.PRs[1].Inactive = r.Chance(1, 3), r.Chance(1, 3)
+	if r.Chance(1, 3) {
+		s.PRs[0].Inactive, s.PRs[0].Paused, s.PRs[0].Deleted = r.Chance(5, 6), false, false
+		if r.Chance(3, 4) { // no Deployment owned by the target
+			for i := range s.Deploys {
+				keep := []string{}
+				for _, o := range s.Deploys[i].Owners {
+					if o != "uid-t" {
+						keep = append(keep, o)
+					}
+				}
+				s.Deploys[i].Owners = keep
+			}
+		}
+		n := "crossplane:provider:prov-a-r1:system"
+		kept := []c18Binding{}
+		for _, b := range s.Bindings {
+			if b.Name != n {
+				kept = append(kept, b)
+			}
+		}
+		b := c18Binding{Name: n, RoleRef: Pick(r, []string{n, n, "cluster-admin"}), Subjects: []c18Subject{}, Ctrl: Pick(r, []string{"uid-other", "uid-other", "uid-u", "", "uid-t"})}
+		for j, k := 0, r.Intn(3); j < k; j++ {
+			b.Subjects = append(b.Subjects, c18Subject{NS: Pick(r, []string{"crossplane-system", "other"}), Name: Pick(r, []string{"sa-a", "sa-b", "default"})})
+		}
+		s.Bindings = append(kept, b)
+	}
+	for _, p := range s.PRs {
+		cur[p.Name] = p
+	}
 	if r.Chance(1, 5) {
 		s.Bindings = append(s.Bindings, c18Binding{Name: "unrelated", RoleRef: "cluster-admin", Subjects: []c18Subject{{NS: "kube-system", Name: "admin"}}, Ctrl: "uid-other"})
 	}
